@@ -176,5 +176,23 @@ PROPS["C04"] = {
     "technique": "Lean 4 proof + machine-checked counter-witnesses over a procedure model with failure oracle; prefix-closed invariant monitor on real traces",
 }
 
+PROPS["C01"] = {
+    "lean": ["MysyncProofs.C01"],
+    "go": [("internal/app", "^TestVerifC01$")],
+    "level": "proof",
+    "components": ["MysyncModel/App/Switchover.lean (performSwitchover at phase level: every external outcome an oracle input, crash = prefix; CheckAsyncSwitchAllowed)",
+                   "MysyncModel/World/Env.lean (environment steps; E3 frozen totals is a lemma)", "MysyncModel/Select.lean, Gtid.lean (positions, most recent / split brain, desirable node)",
+                   "MysyncModel/Generated/SwitchHelper.lean (regenerated quorum check)"],
+    "trusted": ["T4 fake MySQL semantics (read_only, replication threads, CHANGE REPLICATION SOURCE, RESET REPLICA ALL, GTID progress when IO/SQL threads run)",
+                "E1 exclusive control; E2 restart state", "the observer c01observe (event log -> phase steps); only SUCCESSFUL steps and lock re-checks are compared, oracle inputs are recovered from the recorded results, tie-breaks between equal positions are resolved by trying all arrival orders",
+                "T9 force_switchover off, external replication off; the speed-up phase is abstract here (C19)"],
+    "rule": "random real performSwitchover runs: 2-5 nodes, semi-sync (w 1-2) / plain / async mode, GTID histories with two source uuids, gaps, executed behind by 0-20 with retrieved-but-unapplied tails, diverged replicas, lags around the priority bound, priorities 0-2; request kinds {to a host, from the master, automatic failover, operator-forced failover, worker without transition}; master dead or hanging from the start, replicas dead, published list with or without the last host; one of: a failing/hanging/lost-reply statement (13 kinds, 1st or 2nd occurrence, any host), a node killed when a given statement kind first arrives, a scripted lock loss at the 1st/2nd re-check, a failing/lost coordination write. Ground-truth snapshots of all servers are taken at the first lock re-check and whenever SET GLOBAL read_only=0 arrives. distinct = distinct run; non-trivial = more than two observable steps",
+    "assumptions": ["E3 is proved in the environment model; that the fake servers implement it (a read-only server with stopped IO thread does not grow executed+retrieved) is part of T4"],
+    "min_lines": 1000,
+    "level_text": "Theorems for all oracle inputs (= all combinations of failing calls, all cluster shapes, all request kinds) and all crash prefixes: before any promotion the quorum re-count of FROZEN hosts against the published list passed, both lock re-checks passed in the right places, exactly the frozen hosts' positions were collected and have a maximum, the new master caught up (or the async escape, which needs async mode + automatic cause + positive allowed lag); semantic core promotion_safe: every frozen host's executed+retrieved set is contained in the promoted node's executed set (via the C13 maximal-element theorem and transitivity), with E3 proved as an environment lemma; split brain aborts with the marker and nothing promoted; marker only on split brain. Monitors on real runs evaluate PromotionOK on ground-truth snapshots at the moment read_only=0 arrives.",
+    "level_note": "Trusted: Lean kernel; fake server semantics; observer; tie-break search. The link 'collected position = ground-truth total' is checked by the monitor on every run, assumed (hpos/hcaught) in promotion_safe.",
+    "technique": "Lean 4 proof over a phase-level oracle model (crash = prefix) + environment lemma + differential check and ground-truth promotion monitor on fault-injected real runs",
+}
+
 _todo = "machinery for this property is not built yet in this round; planned per DESIGN.md §7/§10 (no claim is made until its check exists)"
 NOT_APPLICABLE = {("C%02d" % i): _todo for i in range(1, 21)}
